@@ -65,18 +65,27 @@ theorem slice_mid_nat (d : Str) (a b : Nat) : slice d (some (a : Int)) (some (b 
 
 theorem notMem_drop {c : Char} {L : Str} (j : Nat) (h : c ∉ L) : c ∉ L.drop j := fun m => h (List.mem_of_mem_drop m)
 
-/-- `_get_end_of_last_found`: one past the newline that ends the line holding the last token (non-numpydoc formats) -/
-theorem endOfLastFound_line (pre L post : Str) (lf : Int) (lfs : Option Int) (fmt : Style) (hL : '\n' ∉ L)
-    (hlo : (pre.length : Int) ≤ lf) (hhi : lf < (pre.length + L.length : Nat)) (hfmt : fmt ≠ .numpydoc) :
+/-- `_get_end_of_last_found`: one past the newline that ends the line holding the last token, whenever the numpydoc exit
+    is not taken (the format is not numpydoc, or the text between line start and token is not made of dashes) -/
+theorem endOfLastFound_line' (pre L post : Str) (lf : Int) (lfs : Option Int) (fmt : Style) (hL : '\n' ∉ L)
+    (hlo : (pre.length : Int) ≤ lf) (hhi : lf ≤ (pre.length + L.length : Nat))
+    (hnb : (fmt == .numpydoc && allDashes (slice (pre ++ L ++ '\n' :: post) lfs (some lf))) = false) :
     endOfLastFound (pre ++ L ++ '\n' :: post).toArray lf lfs fmt = .ok (some ((pre.length + L.length + 1 : Nat) : Int)) := by
   rw [endOfLastFound_eq]
   obtain ⟨j, hj⟩ : ∃ j : Nat, lf.toNat = pre.length + j := ⟨lf.toNat - pre.length, by omega⟩
   have hjl : j ≤ L.length := by omega
   rw [hj, drop_in_line pre L _ j hjl, endScan_line _ _ _ _ (notMem_drop j hL)]
-  have hf : (fmt == Style.numpydoc) = false := by cases fmt <;> first | rfl | exact absurd rfl hfmt
-  simp only [hf, Bool.false_and, Bool.false_eq_true, if_false, List.length_drop]
+  simp only [hnb, Bool.false_eq_true, if_false, List.length_drop]
   congr 2
   omega
+
+/-- `_get_end_of_last_found`: one past the newline that ends the line holding the last token (non-numpydoc formats) -/
+theorem endOfLastFound_line (pre L post : Str) (lf : Int) (lfs : Option Int) (fmt : Style) (hL : '\n' ∉ L)
+    (hlo : (pre.length : Int) ≤ lf) (hhi : lf < (pre.length + L.length : Nat)) (hfmt : fmt ≠ .numpydoc) :
+    endOfLastFound (pre ++ L ++ '\n' :: post).toArray lf lfs fmt = .ok (some ((pre.length + L.length + 1 : Nat) : Int)) := by
+  apply endOfLastFound_line' pre L post lf lfs fmt hL hlo (Int.le_of_lt hhi)
+  have hf : (fmt == Style.numpydoc) = false := by cases fmt <;> first | rfl | exact absurd rfl hfmt
+  rw [hf]; rfl
 
 /-- `_get_end_of_last_found` when the last-token line is the last line and has no newline after it -/
 theorem endOfLastFound_lastline (pre L : Str) (lf : Int) (lfs : Option Int) (fmt : Style) (hL : '\n' ∉ L)
@@ -99,7 +108,7 @@ theorem startOfLastFound_total (d : Str) (lf : Int) (h : lf ≤ d.length) : ∃ 
 
 /-- `_get_start_of_last_found`: the start of the line holding the last token, when a newline at an index ≥ 1 precedes it -/
 theorem startOfLastFound_line (p L post : Str) (lf : Int) (hp : p ≠ []) (hL : '\n' ∉ L)
-    (hlo : ((p ++ ['\n']).length : Int) ≤ lf) (hhi : lf < ((p ++ ['\n']).length + L.length : Nat)) :
+    (hlo : ((p ++ ['\n']).length : Int) ≤ lf) (hhi : lf ≤ ((p ++ ['\n']).length + L.length : Nat)) :
     startOfLastFound (p ++ ['\n'] ++ L ++ post).toArray lf = .ok (some (((p ++ ['\n']).length : Nat) : Int)) := by
   unfold startOfLastFound
   simp only [List.length_append, List.length_singleton] at hlo hhi ⊢
@@ -257,7 +266,7 @@ theorem last_adjacent (p L post : Str) (lf : Int)
       .ok ((lineVerdict (p ++ ['\n']).length L).getD (((p ++ ['\n']).length + L.length + 1 : Nat) : Int)) := by
   generalize hpre : p ++ ['\n'] = pre at *
   have h2 : startOfLastFound (pre ++ L ++ '\n' :: post).toArray lf = .ok (some ((pre.length : Nat) : Int)) := by
-    subst hpre; exact startOfLastFound_line p L ('\n' :: post) lf hp hL hlo hhi
+    subst hpre; exact startOfLastFound_line p L ('\n' :: post) lf hp hL hlo (Int.le_of_lt hhi)
   have h3 := endOfLastFound_line pre L post lf (some ((pre.length : Nat) : Int)) _ hL hlo hhi hfmt
   have hws : leadingWs post = 0 := by
     rcases hpost with h | ⟨c, cs, h, hns⟩
@@ -293,14 +302,15 @@ theorem drop_after_nl (A Z : Str) : (A ++ '\n' :: Z).drop (A.length + 1) = Z := 
     `_get_token_last_idx` does not look for the end of the section at all: it goes to the **last line of the whole
     string** `Z` and returns the length of the string if `Z` starts with a token, else the start of `Z` after its
     indentation (or the newline before `L` if `L` is `Raises:`). -/
-theorem last_absorbed (d p L post A Z : Str) (lf : Int)
+theorem last_absorbed_gen (d p L post A Z : Str) (lf : Int)
     (hd1 : d = p ++ ['\n'] ++ L ++ '\n' :: post) (hd2 : d = A ++ '\n' :: Z)
     (hlf : lastDocStrToken d.toArray = some lf)
-    (hlo : ((p ++ ['\n']).length : Int) ≤ lf) (hhi : lf < ((p ++ ['\n']).length + L.length : Nat))
+    (hlo : ((p ++ ['\n']).length : Int) ≤ lf) (hhi : lf ≤ ((p ++ ['\n']).length + L.length : Nat))
     (hp : p ≠ []) (hL : '\n' ∉ L) (hZ : '\n' ∉ Z)
     (hpost : ∃ w ws, post = w :: ws ∧ isSpaceC w = true)
     (hd : (!L.isEmpty && allDashes L) = false)
-    (hfmt : deriveFormat d.toArray ≠ .numpydoc) :
+    (hnb : (deriveFormat d.toArray == .numpydoc
+              && allDashes (slice d (some (((p ++ ['\n']).length : Nat) : Int)) (some lf))) = false) :
     tokenLastIdx d.toArray =
       .ok (if startsWithAny tokensSet (lstrip Z) then (d.length : Int)
            else (lineVerdict (p ++ ['\n']).length L).getD ((A.length + 1 + leadingWs Z : Nat) : Int)) := by
@@ -309,7 +319,8 @@ theorem last_absorbed (d p L post A Z : Str) (lf : Int)
     subst hpre; rw [hd1]; exact startOfLastFound_line p L ('\n' :: post) lf hp hL hlo hhi
   have h3 : endOfLastFound d.toArray lf (some ((pre.length : Nat) : Int)) (deriveFormat d.toArray)
       = .ok (some ((pre.length + L.length + 1 : Nat) : Int)) := by
-    have := endOfLastFound_line pre L post lf (some ((pre.length : Nat) : Int)) (deriveFormat d.toArray) hL hlo hhi hfmt
+    have := endOfLastFound_line' pre L post lf (some ((pre.length : Nat) : Int)) (deriveFormat d.toArray) hL hlo hhi
+      (by rw [← hd1]; exact hnb)
     rw [← hd1] at this; exact this
   obtain ⟨w, ws, hw, hwsp⟩ := hpost
   have hfe : findEndOfArgsReturns d.toArray (some ((pre.length + L.length + 1 : Nat) : Int)) = ((A.length + Z.length : Nat) : Int) := by
@@ -361,6 +372,22 @@ theorem last_absorbed (d p L post A Z : Str) (lf : Int)
     rw [hverd]
     cases lineVerdict pre.length L <;> rfl
 
+theorem last_absorbed (d p L post A Z : Str) (lf : Int)
+    (hd1 : d = p ++ ['\n'] ++ L ++ '\n' :: post) (hd2 : d = A ++ '\n' :: Z)
+    (hlf : lastDocStrToken d.toArray = some lf)
+    (hlo : ((p ++ ['\n']).length : Int) ≤ lf) (hhi : lf < ((p ++ ['\n']).length + L.length : Nat))
+    (hp : p ≠ []) (hL : '\n' ∉ L) (hZ : '\n' ∉ Z)
+    (hpost : ∃ w ws, post = w :: ws ∧ isSpaceC w = true)
+    (hd : (!L.isEmpty && allDashes L) = false)
+    (hfmt : deriveFormat d.toArray ≠ .numpydoc) :
+    tokenLastIdx d.toArray =
+      .ok (if startsWithAny tokensSet (lstrip Z) then (d.length : Int)
+           else (lineVerdict (p ++ ['\n']).length L).getD ((A.length + 1 + leadingWs Z : Nat) : Int)) := by
+  apply last_absorbed_gen d p L post A Z lf hd1 hd2 hlf hlo (Int.le_of_lt hhi) hp hL hZ hpost hd
+  have hf : (deriveFormat d.toArray == Style.numpydoc) = false := by
+    cases h : deriveFormat d.toArray <;> first | rfl | exact absurd h hfmt
+  rw [hf]; rfl
+
 /-- **unterminated shape**: the last-token line `L` is the last line of the string and has no newline after it —
     `_get_token_last_idx` is the length of the string if `L` starts (after indentation) with a token, else the start of
     `L` after its indentation (or the newline before `L` if `L` is `Raises:`). -/
@@ -379,7 +406,7 @@ theorem last_unterminated (p L : Str) (lf : Int)
   have hprelen : pre.length = p.length + 1 := by rw [← hpre]; simp
   have h2 : startOfLastFound d.toArray lf = .ok (some ((pre.length : Nat) : Int)) := by
     subst hpre
-    have := startOfLastFound_line p L [] lf hp hL hlo hhi
+    have := startOfLastFound_line p L [] lf hp hL hlo (Int.le_of_lt hhi)
     rw [List.append_nil, hdd] at this; exact this
   have h3 : endOfLastFound d.toArray lf (some ((pre.length : Nat) : Int)) (deriveFormat d.toArray)
       = .ok (some ((pre.length + L.length : Nat) : Int)) := by
